@@ -355,25 +355,42 @@ func (e *Entry) addError(err error) {
 	}
 }
 
-// importErrors imports all the errors from c and its children into e.
+// importErrors imports all the errors from c and its children into e.  An
+// error that e already lists is not listed again: the copies of a grouping
+// carry the errors of the grouping along, so along a chain of uses statements
+// the number of copies of one error would otherwise double at every level.
 func (e *Entry) importErrors(c *Entry) {
 	if c == nil {
 		return
 	}
+	seen := make(map[error]bool, len(e.Errors))
+	for _, err := range e.Errors {
+		seen[err] = true
+	}
+	e.importErrorsOnce(c, seen)
+}
+
+func (e *Entry) importErrorsOnce(c *Entry, seen map[error]bool) {
+	if c == nil {
+		return
+	}
 	for _, err := range c.Errors {
-		e.addError(err)
+		if !seen[err] {
+			seen[err] = true
+			e.addError(err)
+		}
 	}
 	// TODO(borman): need to determine if the extensions have errors
 	// for _, ce := range e.Exts {
 	// 	e.importErrors(ce)
 	// }
 	for _, ce := range c.Dir {
-		e.importErrors(ce)
+		e.importErrorsOnce(ce, seen)
 	}
 	if c.RPC != nil {
 		// The input and output of an rpc or action are not in Dir.
-		e.importErrors(c.RPC.Input)
-		e.importErrors(c.RPC.Output)
+		e.importErrorsOnce(c.RPC.Input, seen)
+		e.importErrorsOnce(c.RPC.Output, seen)
 	}
 }
 
